@@ -66,6 +66,27 @@ type c14Drv struct {
 	bodyDir string
 	cases   int
 	samples []any
+	other   vegeta.Targeter // a second http targeter that lives next to the one under test and is read in turns with it
+	otherK  int             // draws from it so far
+}
+
+// bystander draws once from the other targeter (two targets, then the end twice, then a fresh one) and logs a Mixed event -
+// which the trace specification has no action for - when it is handed anything but its own next target.
+func (d *c14Drv) bystander() {
+	if d.other == nil {
+		d.other, d.otherK = vegeta.NewHTTPTargeter(strings.NewReader("GET http://bystander.example/1\nX-B: one\n\nPOST http://bystander.example/2\nX-B: two\n"), nil, nil), 0
+	}
+	var t vegeta.Target
+	err := d.other(&t)
+	d.otherK++
+	got := fmt.Sprintf("%v|%s|%s|%v", err, t.Method, t.URL, t.Header["X-B"])
+	want := []string{"<nil>|GET|http://bystander.example/1|[one]", "<nil>|POST|http://bystander.example/2|[two]", "no targets to attack|||[]", "no targets to attack|||[]"}[d.otherK-1]
+	if got != want {
+		d.tr.Emit("Mixed", KV{"what": "the targeter living next to the one under test was handed something else than its own next target", "got": got, "want": want})
+	}
+	if d.otherK == 4 {
+		d.other = nil
+	}
 }
 
 var methods = []string{"GET", "POST", "PUT", "DELETE", "HEAD", "PATCH", "OPTIONS", "PURGE", "X"}
@@ -281,6 +302,15 @@ func (d *c14Drv) httpCase(kinds []string, spare bool, trailingNL bool, eager boo
 		d.samples = append(d.samples, KV{"document": sb.String()})
 	}
 	tr := vegeta.NewHTTPTargeter(d.source(sb.String()), defBody, defHdr)
+	if d.cases%3 == 0 { // every third document is read in turns with another targeter's
+		inner := tr
+		tr = func(t *vegeta.Target) error {
+			d.bystander()
+			err := inner(t)
+			d.bystander()
+			return err
+		}
+	}
 	if eager {
 		tgts, err := vegeta.ReadAllTargets(tr)
 		switch {
